@@ -33,6 +33,9 @@ def main():
     res = {"patch": patch, "props": {}, "suite": None}
     rc, out = sh(["git", "apply", patch], cwd=REPO)
     if rc:
+        rc, out = sh(["git", "apply", "--3way", patch], cwd=REPO)
+        sh(["git", "reset", "-q"], cwd=REPO)
+    if rc:
         print("patch does not apply:\n" + out)
         return 2
     try:
